@@ -9,12 +9,30 @@ VERIF = os.environ.get("PCV_VERIF", "/verif"); REPO = os.environ.get("PCV_REPO",
 def sh(cmd, cwd=None, timeout=7200):
     return subprocess.run(cmd, shell=True, cwd=cwd, stdout=subprocess.PIPE, stderr=subprocess.STDOUT, text=True, timeout=timeout)
 
+def table():
+    with open(os.path.join(SEEDS, os.environ.get("PCV_SEED_OUT", "RESULTS.md")), "w") as f:
+        f.write("# Seeded changes (written by independent sub-agents from the property text alone)\n\n")
+        f.write("| seed | property | confirmed (suite passes / demo fails with / passes without) | detected by | message |\n|---|---|---|---|---|\n")
+        for d in sorted(glob.glob(os.path.join(SEEDS, "C*"))):
+            m = json.load(open(os.path.join(d, "meta.json")))
+            runs = m.get("check_runs", {})
+            msg = next((runs[t]["message"] for t in runs if runs[t]["exit"] == 1), "")
+            det = m.get("detected_by")
+            if not det:
+                oth = m.get("reported_by_other_checks") or []
+                det = "not by this property's check" + ("; reported by " + ", ".join(o["check"] for o in oth) if oth else "")
+                if oth and not msg:
+                    msg = oth[0]["message"]
+            f.write("| %s | %s | %s | %s | %s |\n" % (m["name"], m["property"], "yes" if m.get("confirmed") else "NO", det, msg.replace("|", "/")[:200]))
+
 def main():
     args = [a for a in sys.argv[1:] if not a.startswith("--")]
     part = [a for a in sys.argv[1:] if a.startswith("--part=")]
     part = tuple(int(x) for x in part[0][7:].split("/")) if part else None
     only = [a[7:] for a in sys.argv[1:] if a.startswith("--only=")]
     thorough = "--thorough-on-miss" in sys.argv
+    if "--table" in sys.argv:
+        table(); return
     assert sh("git status --porcelain", REPO).stdout.strip() == "", "/repo not clean"
     rows = []
     for di, d in enumerate(sorted(glob.glob(os.path.join(SEEDS, "C*")))):
@@ -59,14 +77,6 @@ def main():
         rows.append((name, json.dumps(out)))
         print(name, "DETECTED by " + det if det else "MISSED", out, flush=True)
     assert sh("git status --porcelain", REPO).stdout.strip() == ""
-    # regenerate the summary table from all meta.json files
-    with open(os.path.join(SEEDS, os.environ.get("PCV_SEED_OUT", "RESULTS.md")), "w") as f:
-        f.write("# Seeded changes (written by independent sub-agents from the property text alone)\n\n")
-        f.write("| seed | property | confirmed (suite passes / demo fails with / passes without) | detected by | message |\n|---|---|---|---|---|\n")
-        for d in sorted(glob.glob(os.path.join(SEEDS, "C*"))):
-            m = json.load(open(os.path.join(d, "meta.json")))
-            runs = m.get("check_runs", {})
-            msg = next((runs[t]["message"] for t in runs if runs[t]["exit"] == 1), "")
-            f.write("| %s | %s | %s | %s | %s |\n" % (m["name"], m["property"], "yes" if m.get("confirmed") else "NO", m.get("detected_by") or "not detected", msg.replace("|", "/")[:200]))
+    table()
 
 main()
